@@ -132,6 +132,54 @@ def env_cases(arg):
     return out
 
 
+def env_scope_cases(arg):
+    """Run in a NEW interpreter started with FLOW_RECORD_IGNORE=<arg> (round g): scope histories that START from the
+    configuration taken from the environment -- in particular ones that first CLEAR it with the setter -- so that a scope
+    which falls back to the process default instead of what was in force when it was entered is seen.  -> scope traces."""
+    import random
+
+    import flow.record.base as base
+    from flow.record import ignore_fields_for_comparison, set_ignored_fields_for_comparison as setter
+
+    env = sorted(set(arg.split(","))) if arg else []
+    assert sorted(base.IGNORE_FIELDS_FOR_COMPARISON) == env, "FLOW_RECORD_IGNORE was not picked up"
+    sets = [[], ["a"], ["a", "b"], ["_generated"]]
+    fixed = [[("set", []), ("enter", ["a"]), ("exit_ok", [])], [("set", []), ("enter", ["a"]), ("exit_err", [])], [("enter", ["a"]), ("exit_ok", [])],
+             [("enter", []), ("exit_err", [])], [("set", []), ("enter", []), ("exit_ok", [])], [("set", ["b"]), ("enter", ["a"]), ("set", []), ("exit_ok", [])],
+             [("set", []), ("enter", ["a"]), ("enter", []), ("exit_err", []), ("exit_ok", [])]]
+    rnd = random.Random(len(arg))
+    plans = fixed + [[(rnd.choice(["set", "enter", "enter", "exit_ok", "exit_err"]), rnd.choice(sets)) for _ in range(rnd.randint(2, 7))] for _ in range(25)]
+    out = []
+    for plan in plans:
+        setter(list(env))          # back to what the environment gave (init of the trace)
+        ops, cms = [], []
+        for kind, a in plan:
+            if kind in ("exit_ok", "exit_err") and not cms:
+                kind = "enter"
+            try:
+                if kind == "set":
+                    setter(list(a))
+                elif kind == "enter":
+                    cm = ignore_fields_for_comparison(list(a))
+                    cm.__enter__()
+                    cms.append(cm)
+                elif kind == "exit_ok":
+                    cms.pop().__exit__(None, None, None)
+                else:
+                    e = ValueError("boom")
+                    try:
+                        cms.pop().__exit__(ValueError, e, None)
+                    except ValueError:
+                        pass
+            except Exception:
+                pass
+            ops.append({"op": kind, "arg": a, "after": sorted(base.IGNORE_FIELDS_FOR_COMPARISON)})
+        while cms:
+            cms.pop().__exit__(None, None, None)
+        out.append({"kind": "scope", "init": list(env), "ops": ops})
+    return out
+
+
 def run(tier):
     import flow.record.base as base
     from flow.record import GroupedRecord, RecordDescriptor, ignore_fields_for_comparison, set_ignored_fields_for_comparison
@@ -398,6 +446,12 @@ def run(tier):
         traces.append({"kind": "scope", "init": init, "ops": ops})
         metas.append({"pair": "scope", "ops": [o["op"] for o in ops]})
         ctx.case(("scope", json.dumps(ops)))
+    # scope histories that start from a configuration given by the ENVIRONMENT (fresh interpreters; round g)
+    for envval in ("a", "a,b", "_generated"):
+        for t in common.in_fresh_process("c12", "env_scope_cases", envval, {"FLOW_RECORD_IGNORE": envval}):
+            traces.append(t)
+            metas.append({"pair": "scope", "ops": [o["op"] for o in t["ops"]], "env": "FLOW_RECORD_IGNORE=" + envval})
+            ctx.case(("scope-env", envval, json.dumps(t["ops"])))
     ctx.sample({"trace": traces[-1]})
     path = os.path.join(common.scratch("c12"), "traces.json")
     tlc.write_json(path, traces)
